@@ -1,4 +1,4 @@
-import FxVerif.Proofs.C04
+import FxVerif.Proofs.C04Batch
 /-! C04: every successful operation keeps `held + inFlight − deposited + withdrawn` of every token group -/
 namespace FxVerif.Proofs.C04
 open FxVerif.Model.Ledger FxVerif.Model.Flows FxVerif.Model.C04 FxVerif.Proofs.Ledger
@@ -42,7 +42,10 @@ theorem measure_finish (s : State) (c : Nat) (cs : ChainSt) (dep wd : List (Nat 
     measure (finish s c cs dep wd) g = measure s g - chainInFlight g (s.chains c) + chainInFlight g cs
       - tokensValue g dep + tokensValue g wd := by
   have h1 := inFlight_setChain s c cs g hc
-  have h2 : inFlight (finish s c cs dep wd) g = inFlight (setChain s c cs) g := rfl
+  have h2 : inFlight (finish s c cs dep wd) g = inFlight (setChain s c cs) g := by
+    have e : ∀ c', chainInFlight g ((finish s c cs dep wd).chains c') = chainInFlight g ((setChain s c cs).chains c') := by
+      intro c'; simp only [finish, setChain]; split <;> rfl
+    simp only [inFlight, e]
   simp only [measure, h2, h1]
   simp only [finish, bumpAll_val, setChain]
   push_cast
@@ -178,6 +181,8 @@ theorem measure_deposit (cfg : Cfg) (s s' : State) (c g u n : Nat) (toErc : Bool
   | none => simp [hk] at h
   | some k =>
     simp only [hk] at h
+    split at h
+    · cases h
     cases toErc
     · simp only [Bool.false_eq_true, ↓reduceIte] at h
       cases hr : run s (bridgeTokenToBaseCoin k g c (U u) n) with
@@ -241,6 +246,69 @@ theorem measure_xsend (cfg : Cfg) (s s' : State) (c g u n fee : Nat) (g' : Nat) 
             held_withdraw g' k g c u _ hc]
           simp only [chainInFlight, poolValue, tokensValue, List.map_cons, List.map_nil, List.sum_cons, List.sum_nil]
           split <;> simp_all <;> omega
+
+theorem held_valueIn (g' g u n : Nat) : (heldObs g').flowDelta (valueIn g (U u) n) = 0 := by
+  simp only [valueIn]; held_done
+
+theorem held_feeToBridgeDenom (g' : Nat) (k : Kind) (g c u n : Nat) (hc : c < 3) :
+    (heldObs g').flowDelta (feeToBridgeDenom k g c (U u) n) = 0 := by
+  cases k <;> simp only [feeToBridgeDenom]
+  · rfl
+  · exact held_convertDenom g' _ g u n .base (.chain c) (by intro c h; cases h) (by intro c' h; cases h; exact hc)
+  · exact held_convertDenom g' _ g u n .base (.chain c) (by intro c h; cases h) (by intro c' h; cases h; exact hc)
+
+theorem measure_vsend (cfg : Cfg) (s s' : State) (c g u n fee : Nat) (g' : Nat) (hc : c < 3)
+    (h : stepCore cfg s (.vsend c g u n fee) = .ok s') : measure s' g' = measure s g' := by
+  simp only [stepCore] at h; exc
+  split at h
+  · cases h
+  · split at h
+    · cases h
+    · cases hk : bridged cfg g c with
+      | none => simp [hk] at h
+      | some k =>
+        simp only [hk] at h
+        cases hr : run s (valueIn g (U u) (n + fee) ++ baseCoinToBridgeToken k g c (U u) (n + fee)) with
+        | error e => simp [hr] at h
+        | ok s1 =>
+          simp only [hr, Except.ok.injEq] at h; subst h
+          rw [measure_run_finish s s1 _ c _ _ _ g' hc hr, flowDelta_append, held_valueIn, held_withdraw g' k g c u _ hc]
+          simp only [chainInFlight, poolValue, tokensValue, List.map_cons, List.map_nil, List.sum_cons, List.sum_nil]
+          split <;> simp_all <;> omega
+
+theorem measure_xincfee (cfg : Cfg) (s s' : State) (c id u g n : Nat) (g' : Nat) (hc : c < 3)
+    (h : stepCore cfg s (.xincfee c id u g n) = .ok s') : measure s' g' = measure s g' := by
+  simp only [stepCore] at h; exc
+  split at h
+  · cases h
+  · cases hkp : cfg.kind g with
+    | none => simp [hkp] at h
+    | some kp =>
+      simp only [hkp] at h
+      cases he : extract (fun t : PoolTx => t.id == id) (s.chains c).pool with
+      | none => simp [he] at h
+      | some pr =>
+        obtain ⟨tx, rest⟩ := pr
+        simp only [he] at h
+        have hsum := extract_sum _ (fun t : PoolTx => if t.g = g' then t.amount + t.fee else 0) _ _ _ he
+        cases hk : bridged cfg g c with
+        | none => simp [hk] at h
+        | some k =>
+          simp only [hk] at h
+          split at h
+          · cases h
+          · rename_i hg
+            cases hr : run s (precompileTokenIn kp g (U u) n ++ (feeToBridgeDenom k g c (U u) n ++
+                addBridgeFee k g c (U u) n)) with
+            | error e => simp [hr] at h
+            | ok s1 =>
+              simp [hr] at h; subst h
+              rw [measure_run_finish s s1 _ c _ _ _ g' hc hr, flowDelta_append, flowDelta_append,
+                held_precompileTokenIn, held_feeToBridgeDenom g' k g c u n hc, held_addBridgeFee g' k g c u _ hc]
+              simp only [chainInFlight, poolValue, tokensValue, List.map_cons, List.map_nil, List.sum_cons,
+                List.sum_nil] at hsum ⊢
+              have hg' : tx.g = g := by simpa using hg
+              split <;> simp_all <;> omega
 
 theorem measure_cancel (cfg : Cfg) (s s' : State) (c id u : Nat) (g' : Nat) (hc : c < 3)
     (h : stepCore cfg s (.cancel c id u) = .ok s') : measure s' g' = measure s g' := by
@@ -314,44 +382,41 @@ theorem measure_finish0 (s : State) (c : Nat) (cs : ChainSt) (wd : List (Nat × 
     measure (finish s c cs [] wd) g = measure s g := by
   rw [measure_finish _ _ _ _ _ _ hc]; simp only [tokensValue, List.map_nil, List.sum_nil] at h ⊢; omega
 
-theorem measure_batch (cfg : Cfg) (s s' : State) (c g bf : Nat) (g' : Nat) (hc : c < 3)
-    (h : stepCore cfg s (.batch c g bf) = .ok s') : measure s' g' = measure s g' := by
+theorem measure_batch (cfg : Cfg) (s s' : State) (c g bf mf : Nat) (ao : Bool) (g' : Nat) (hc : c < 3)
+    (h : stepCore cfg s (.batch c g bf mf ao) = .ok s') : measure s' g' = measure s g' := by
   simp only [stepCore] at h; exc
   split at h
-  · split at h
-    · cases h
-    · split at h
-      · cases h
-      · cases h
-        apply measure_finish0 _ _ _ _ _ hc
-        have := filter_sum (fun t : PoolTx => t.g == g && decide (bf ≤ t.fee))
-          (fun t : PoolTx => if t.g = g' then t.amount + t.fee else 0) (s.chains c).pool
-        simp only [chainInFlight, poolValue, tokensValue, List.map_cons, List.map_nil, List.sum_cons, List.sum_nil] at this ⊢
-        omega
   · cases h
+  · rw [request_closed] at h
+    cases hb : batchResult (bridged cfg g c).isSome ao ⟨g, bf, mf⟩ (s.chains c) with
+    | error e => simp [hb] at h
+    | ok cs' =>
+      simp only [hb, Except.ok.injEq] at h; subst h
+      obtain ⟨_, _, _, _, rfl⟩ := batchResult_ok hb
+      apply measure_finish0 _ _ _ _ _ hc
+      have := filter_sum (selects ⟨g, bf, mf⟩)
+        (fun t : PoolTx => if t.g = g' then t.amount + t.fee else 0) (s.chains c).pool
+      simp only [chainInFlight, poolValue, tokensValue, List.map_cons, List.map_nil, List.sum_cons, List.sum_nil] at this ⊢
+      omega
 
-theorem batches_split (g' g nonce : Nat) (bs : List Batch) :
-    (bs.map (fun b => poolValue g' b.txs)).sum =
-      ((bs.filter (fun b => !(b.g == g && decide (b.nonce ≤ nonce)))).map (fun b => poolValue g' b.txs)).sum
-      + ((bs.filter (fun b => b.g == g && decide (b.nonce < nonce))).map (fun b => poolValue g' b.txs)).sum
-      + ((bs.filter (fun b => b.g == g && b.nonce == nonce)).map (fun b => poolValue g' b.txs)).sum := by
-  induction bs with
+/-- split of a sum along two disjoint predicates -/
+theorem split3_sum {α : Type} (p q : α → Bool) (v : α → Nat) (hd : ∀ x, p x = true → q x = true → False) (l : List α) :
+    (l.map v).sum = ((l.filter (fun x => !p x && !q x)).map v).sum + ((l.filter p).map v).sum
+      + ((l.filter q).map v).sum := by
+  induction l with
   | nil => rfl
-  | cons b bs ih =>
+  | cons x xs ih =>
     simp only [List.filter_cons, List.map_cons, List.sum_cons, ih]
-    by_cases hg : b.g = g
-    · rcases Nat.lt_trichotomy b.nonce nonce with h1 | h1 | h1
-      · have h2 : b.nonce ≤ nonce := by omega
-        have h3 : ¬ b.nonce = nonce := by omega
-        simp [hg, h1, h2, h3]; omega
-      · have h2 : b.nonce ≤ nonce := by omega
-        have h3 : ¬ b.nonce < nonce := by omega
-        simp [hg, h1, h2, h3]; omega
-      · have h2 : ¬ b.nonce ≤ nonce := by omega
-        have h3 : ¬ b.nonce < nonce := by omega
-        have h4 : ¬ b.nonce = nonce := by omega
-        simp [hg, h2, h3, h4]; omega
-    · simp [hg]; omega
+    cases hp : p x <;> cases hq : q x
+    · simp; omega
+    · simp; omega
+    · simp; omega
+    · exact absurd hq (fun h => hd x hp h)
+
+theorem cancels_isBatch_disjoint (g nonce : Nat) (b : Batch) :
+    cancels cancelRule g nonce b = true → isBatch g nonce b = true → False := by
+  simp [cancels, cancelRule, Cmp.eval, isBatch]
+  intro h1 _ h2; omega
 
 theorem tokensValue_append (g : Nat) (a b : List (Nat × Nat)) :
     tokensValue g (a ++ b) = tokensValue g a + tokensValue g b := by
@@ -375,9 +440,10 @@ theorem measure_executed (cfg : Cfg) (s s' : State) (c g nonce : Nat) (g' : Nat)
   · cases h
   · cases h
     apply measure_finish0 _ _ _ _ _ hc
-    have h1 := batches_split g' g nonce (s.chains c).batches
-    have h2 := exec_value g' ((s.chains c).batches.filter (fun b => b.g == g && b.nonce == nonce))
-    simp only [chainInFlight, poolValue_append, poolValue_flatMap, h2]
+    have h1 := split3_sum (cancels cancelRule g nonce) (isBatch g nonce) (fun b => poolValue g' b.txs)
+      (cancels_isBatch_disjoint g nonce) (s.chains c).batches
+    have h2 := exec_value g' ((s.chains c).batches.filter (isBatch g nonce))
+    simp only [chainInFlight, executedWith, poolValue_append, poolValue_flatMap, h2]
     omega
 
 theorem measure_btimeout (cfg : Cfg) (s s' : State) (c g nonce : Nat) (g' : Nat) (hc : c < 3)
@@ -387,8 +453,7 @@ theorem measure_btimeout (cfg : Cfg) (s s' : State) (c g nonce : Nat) (g' : Nat)
   · cases h
   · cases h
     apply measure_finish0 _ _ _ _ _ hc
-    have h1 := filter_sum (fun b : Batch => b.g == g && b.nonce == nonce) (fun b => poolValue g' b.txs)
-      (s.chains c).batches
+    have h1 := filter_sum (isBatch g nonce) (fun b => poolValue g' b.txs) (s.chains c).batches
     simp only [chainInFlight, poolValue_append, poolValue_flatMap, tokensValue, List.map_nil, List.sum_nil]
     omega
 
@@ -435,6 +500,32 @@ theorem measure_bcout (cfg : Cfg) (s s' : State) (c u r : Nat) (tokens : List (N
             pairsFlow_delta cfg g' _ (fun k g n => held_convertERC20 g' k g u u n) tokens flIn hi]
           simp only [chainInFlight, tokensValue, List.map_cons, List.map_nil, List.sum_cons, List.sum_nil]
           omega
+
+theorem measure_vbcout (cfg : Cfg) (s s' : State) (c gfx u r v : Nat) (tokens : List (Nat × Nat)) (g' : Nat)
+    (hc : c < 3) (h : stepCore cfg s (.vbcout c gfx u r v tokens) = .ok s') : measure s' g' = measure s g' := by
+  simp only [stepCore] at h; exc
+  split at h
+  · cases h
+  · split at h
+    · cases h
+    · cases hi : pairsFlow cfg tokens (fun k g n => convertERC20 k g (U u) (U u) n) with
+      | error e => simp [hi] at h
+      | ok flIn =>
+        simp only [hi] at h
+        cases ho : tokensFlow cfg c ((gfx, v) :: tokens) (fun k g n => baseCoinToBridgeToken k g c (U u) n) with
+        | error e => simp [ho] at h
+        | ok flOut =>
+          simp only [ho] at h
+          cases hr : run s (valueIn gfx (U u) v ++ (flIn ++ flOut)) with
+          | error e => simp [hr] at h
+          | ok s1 =>
+            simp only [hr, Except.ok.injEq] at h; subst h
+            have hout := tokensFlow_delta cfg c g' _ (-1)
+              (by intro k g n; rw [held_withdraw g' k g c u n hc]; split <;> simp) ((gfx, v) :: tokens) flOut ho
+            rw [measure_run_finish s s1 _ c _ _ _ g' hc hr, flowDelta_append, flowDelta_append, held_valueIn, hout,
+              pairsFlow_delta cfg g' _ (fun k g n => held_convertERC20 g' k g u u n) tokens flIn hi]
+            simp only [chainInFlight, tokensValue, List.map_cons, List.map_nil, List.sum_cons, List.sum_nil]
+            omega
 
 theorem measure_refundCall (cfg : Cfg) (s s' : State) (c : Nat) (call : OutCall) (rest : List OutCall) (g' : Nat)
     (hc : c < 3) (p : OutCall → Bool) (he : extract p (s.chains c).calls = some (call, rest))
@@ -501,6 +592,8 @@ theorem measure_bctimeout (cfg : Cfg) (s s' : State) (c nonce : Nat) (g' : Nat) 
 theorem measure_bcin (cfg : Cfg) (s s' : State) (c to : Nat) (tokens : List (Nat × Nat)) (g' : Nat) (hc : c < 3)
     (h : stepCore cfg s (.bcin c to tokens) = .ok s') : measure s' g' = measure s g' := by
   simp only [stepCore] at h; exc
+  split at h
+  · cases h
   cases h1 : tokensFlow cfg c tokens (fun k g n => bridgeTokenToBaseCoin k g c (U to) n) with
   | error e => simp [h1] at h
   | ok fl1 =>
@@ -524,6 +617,8 @@ theorem measure_bcin (cfg : Cfg) (s s' : State) (c to : Nat) (tokens : List (Nat
 theorem measure_bcinfail (cfg : Cfg) (s s' : State) (c r : Nat) (tokens : List (Nat × Nat)) (g' : Nat) (hc : c < 3)
     (h : stepCore cfg s (.bcinfail c r tokens) = .ok s') : measure s' g' = measure s g' := by
   simp only [stepCore] at h; exc
+  split at h
+  · cases h
   cases h1 : tokensFlow cfg c tokens (fun k g n =>
       bridgeTokenToBaseCoin k g c badContract n ++ [.send (.base g) badContract (U r) n]) with
   | error e => simp [h1] at h
@@ -601,12 +696,15 @@ theorem step_measure (cfg : Cfg) (s s' : State) (op : Op) (g' : Nat) (h : step c
       · exact measure_deposit cfg s s' _ _ _ _ _ g' hc h
       · exact measure_send cfg s s' _ _ _ _ _ g' hc h
       · exact measure_xsend cfg s s' _ _ _ _ _ g' hc h
+      · exact measure_vsend cfg s s' _ _ _ _ _ g' hc h
+      · exact measure_xincfee cfg s s' _ _ _ _ _ g' hc h
       · exact measure_cancel cfg s s' _ _ _ g' hc h
       · exact measure_incfee cfg s s' _ _ _ _ _ g' hc h
-      · exact measure_batch cfg s s' _ _ _ g' hc h
+      · exact measure_batch cfg s s' _ _ _ _ _ g' hc h
       · exact measure_executed cfg s s' _ _ _ g' hc h
       · exact measure_btimeout cfg s s' _ _ _ g' hc h
       · exact measure_bcout cfg s s' _ _ _ _ _ g' hc h
+      · exact measure_vbcout cfg s s' _ _ _ _ _ _ g' hc h
       · exact measure_bcresult cfg s s' _ _ _ g' hc h
       · exact measure_bctimeout cfg s s' _ _ g' hc h
       · exact measure_bcin cfg s s' _ _ _ g' hc h
